@@ -89,6 +89,14 @@ func poolConfigs(prop string, thorough bool) (cfgs []poolCfg, depth int) {
 				}
 			}
 		}
+		// re-binding during a fallback episode: three channels, root: key bound to channel 0,
+		// channel 0 down, the key served by a stand-in
+		rb := poolCfg{Name: "C01 pool=3 fallback rebind root=standin", Min: 3, Max: 3, WM: 100, Fallback: true,
+			Setup: append(readyPool(3), "pick(bind,,L,g)", "done(0,ok:k1)", "state(0,IDLE)", "pick(bound,k1,L,g)")}
+		rb.A = alphabet{States: "basic", Cmds: []string{"bind", "bound", "unbind"}, Keys: []string{"k1"}, Gens: []string{"L"},
+			Ctx: []string{"g"}, Done: []string{"ok", "ok:k1", "err"}, MaxOpen: 3, MaxSC: 4}
+		rb.Depth = 6
+		add(rb)
 	case "C02":
 		depth = 5
 		if thorough {
@@ -198,6 +206,10 @@ func poolConfigs(prop string, thorough bool) (cfgs []poolCfg, depth int) {
 		r2.A.MaxOpen = 4
 		r2.Depth = 3
 		add(r2)
+		// non-initial roots: k consecutive refreshes of one channel without any response
+		for _, k := range []int{3, 5, 6} {
+			add(refreshedK(prop, k, base))
+		}
 		// saturated pool with fallback and a bound key
 		cs := poolCfg{Name: prop + " saturated-fallback", Min: 2, Max: 2, WM: 1, Fallback: true, A: base,
 			Setup: append(readyPool(2), "pick(bind,,L,g)", "done(0,ok:k1)")}
@@ -248,6 +260,10 @@ func poolConfigs(prop string, thorough bool) (cfgs []poolCfg, depth int) {
 					add(q)
 				}
 			}
+		}
+		for _, k := range []int{3, 5} {
+			r := refreshedK("C07", k, alphabet{})
+			add(r)
 		}
 	case "C08":
 		depth = 6
@@ -598,4 +614,21 @@ func autoRoots(c *vsched.RunCtx, prop string, cfgs []poolCfg, depth int) {
 	for _, n := range names {
 		c.Add(agg[n])
 	}
+}
+
+// refreshedK: pool of one whose connection has been refreshed k times in a row
+// without a response (window unresponsive_detection_ms*2^k); the alphabet then
+// probes one more deadline completion just below / above that window.
+func refreshedK(prop string, k int, base alphabet) poolCfg {
+	c := poolCfg{Name: fmt.Sprintf("%s root=refreshed-%d-times", prop, k), Min: 1, Max: 1, WM: 100, RefCalls: 1, RefMs: 1}
+	c.Setup = readyPool(1)
+	for i := 0; i < k; i++ {
+		c.Setup = append(c.Setup, "pick(plain,,L,g,d1)", fmt.Sprintf("adv(%d)", (1<<uint(i))+1), "done(0,cde)",
+			fmt.Sprintf("state(%d,CONNECTING)", i+1), fmt.Sprintf("state(%d,READY)", i+1))
+	}
+	w := 1 << uint(k)
+	c.A = alphabet{States: "basic", Cmds: []string{"plain"}, Gens: []string{"L"}, Ctx: []string{"g,d1"},
+		Done: []string{"ok", "cde"}, Adv: []int{w - 1, 2}, MaxOpen: 2, MaxSC: k + 3}
+	c.Depth = 4
+	return c
 }
